@@ -281,3 +281,28 @@ def run(chk: Check, eng: Engine) -> None:
         chk.ok("R09-c", val.fq, rets[0].lineno, "a terminal leaf contributes its symbol's value")
     else:
         raise AnalysisError("DerivationTree.value(): terminal case not recognised")
+
+
+# ------------------------------------------------------------------ self-test variants
+from ..mutants import M  # noqa: E402
+
+_TV = "src/fandango/language/tree_value.py"
+_T = "src/fandango/language/tree.py"
+MUTANTS = [
+    M("to-string-flush-with-b2s", _TV, "        self._reduce_trailing_bits(str_to_bytes_encoding=STRING_TO_BYTES_ENCODING)\n        if isinstance(self._value, str):\n            return self._value\n        if isinstance(self._value, bytes):\n            return _bytes_to_str",
+      "        self._reduce_trailing_bits(str_to_bytes_encoding=bytes_to_str_encoding)\n        if isinstance(self._value, str):\n            return self._value\n        if isinstance(self._value, bytes):\n            return _bytes_to_str", "R09-a"),
+    M("to-bits-encodes-latin1", _TV, "                for byte_ in _str_to_bytes(self._value, encoding=str_to_bytes_encoding)\n", "                for byte_ in _str_to_bytes(self._value, encoding=BYTES_TO_STRING_ENCODING)\n", "R09-a"),
+    M("tree-to-bytes-default-role", _T, "    def to_bytes(self, encoding: str = STRING_TO_BYTES_ENCODING) -> bytes:", "    def to_bytes(self, encoding: str = BYTES_TO_STRING_ENCODING) -> bytes:", "R09-a"),
+    M("append-extends-bits-in-place", _TV, "            trailing_bits = self._trailing_bits + other._trailing_bits\n            return TreeValue(self._value, trailing_bits=trailing_bits)",
+      "            self._trailing_bits.extend(other._trailing_bits)\n            return TreeValue(self._value, trailing_bits=self._trailing_bits)", "R09-b"),
+    M("append-returns-other-when-empty", _TV, "            return TreeValue(\n                other._value, trailing_bits=other._trailing_bits, allow_empty=True\n            )\n", "            return other\n", "R09-b"),
+    M("append-flushes-other", _TV, "        # flush bits, will set self._value\n        self._reduce_trailing_bits(str_to_bytes_encoding=str_to_bytes_encoding)\n",
+      "        # flush bits, will set self._value\n        self._reduce_trailing_bits(str_to_bytes_encoding=str_to_bytes_encoding)\n        if len(other._trailing_bits) % 8 == 0:\n            other._reduce_trailing_bits(str_to_bytes_encoding=str_to_bytes_encoding)\n", "R09-b"),
+    M("value-fold-reversed", _T, "        aggregate = TreeValue.empty()\n        for child in self._children:\n", "        aggregate = TreeValue.empty()\n        for child in reversed(self._children):\n", "R09-c"),
+    M("value-cached-on-tree", _T, "            aggregate = aggregate.append(child.value())\n        return aggregate", "            aggregate = aggregate.append(child.value())\n        self._value_cache = aggregate\n        return aggregate", "R09-c"),
+]
+TWINS = [
+    M("twin-kwarg-to-positional", _TV, "            return _bytes_to_str(self._value, encoding=bytes_to_str_encoding)\n        raise FandangoValueError(\n            f\"Invalid value type: {type(self._value)}, {self._trailing_bits}. This should not happen, please report this as a bug\"\n        )\n\n    def to_bytes(",
+      "            return _bytes_to_str(self._value, bytes_to_str_encoding)\n        raise FandangoValueError(\n            f\"Invalid value type: {type(self._value)}, {self._trailing_bits}. This should not happen, please report this as a bug\"\n        )\n\n    def to_bytes(", None),
+    M("twin-loop-var-rename", _T, "        for child in self._children:\n            aggregate = aggregate.append(child.value())", "        for kid in self._children:\n            aggregate = aggregate.append(kid.value())", None),
+]
